@@ -59,9 +59,12 @@ def _apply_rewrites(text, rewrites):
             expect = rw[2] if len(rw) > 2 else None
             text, n = re.subn(pat, repl, text)
         if expect is not None and n != expect:
-            raise Infra('rewrite %r expected %s sites, found %d' % (pat, expect, n))
+            DEGRADED.append('rewrite %r expected %s sites, found %d' % (pat, expect, n))
         info.append({'pattern': pat, 'replacement': repl, 'sites': n})
     return text, info
+
+
+DEGRADED = []   # filled during build_unit: annotations that could not be placed on the current source
 
 
 def weave_fn(src, msk, it, sc):
@@ -95,7 +98,8 @@ def weave_fn(src, msk, it, sc):
     for ordinal, clauses in (sc.get('loops') or {}).items():
         ordinal = int(ordinal)
         if ordinal >= len(loops):
-            raise Infra('loop#%d not found in %s (has %d loops)' % (ordinal, sc['item'], len(loops)))
+            DEGRADED.append('loop#%d of %s no longer exists (has %d loops): its invariants were not woven' % (ordinal, sc['item'], len(loops)))
+            continue
         kw, brace = loops[ordinal]
         ls = []
         if clauses.get('invariant'):
@@ -131,11 +135,13 @@ def weave_fn(src, msk, it, sc):
         nth = a.get('nth')
         if nth is None:
             if len(idxs) != 1:
-                raise Infra('statement anchor %r matches %d times in %s' % (lit, len(idxs), sc['item']))
+                DEGRADED.append('statement anchor %r matches %d times in %s: proof hint / assertion not woven' % (lit, len(idxs), sc['item']))
+                continue
             idx = idxs[0]
         else:
             if nth >= len(idxs):
-                raise Infra('statement anchor %r #%d not found in %s' % (lit, nth, sc['item']))
+                DEGRADED.append('statement anchor %r #%d not found in %s: not woven' % (lit, nth, sc['item']))
+                continue
             idx = idxs[nth]
         ls = '\n'.join(_tag(['            ' + l for l in a['lines']], a.get('label', 'hint')))
         if a.get('where', 'before') == 'before':
@@ -156,12 +162,15 @@ def weave_fn(src, msk, it, sc):
     out.append(text[last:])
     sig = text[:bo]
     if sc.get('ret'):
-        if re.search(r'\bwhere\b', m[:bo]):
-            raise Infra('where-clause on %s: return value cannot be named mechanically' % sc['item'])
-        mret = re.search(r'->\s*(.+?)\s*$', sig, re.S)
+        wm = re.search(r'\bwhere\b', m[:bo])
+        where = ''
+        head = sig
+        if wm:
+            head, where = sig[:wm.start()], sig[wm.start():]
+        mret = re.search(r'->\s*(.+?)\s*$', head, re.S)
         if not mret:
             raise Infra('cannot name the return value of %s' % sc['item'])
-        sig = sig[:mret.start()] + '-> (%s: %s) ' % (sc['ret'], mret.group(1).strip())
+        sig = head[:mret.start()] + '-> (%s: %s) ' % (sc['ret'], mret.group(1).strip()) + where
     woven = sig + ''.join(out)
     return text, woven
 
@@ -170,11 +179,12 @@ def strip_woven(woven, ret):
     lines = [l for l in woven.split('\n') if W not in l]
     s = '\n'.join(lines)
     if ret:
-        s = re.sub(r'->\s*\(%s:\s*([^{]+?)\)\s*' % re.escape(ret), lambda m: '-> ' + m.group(1).strip() + ' ', s, count=1)
+        s = re.sub(r'->\s*\(%s:\s*([^{]+?)\)\s*(?=\{|where\b|\n)' % re.escape(ret), lambda m: '-> ' + m.group(1).strip() + ' ', s, count=1)
     return s
 
 
 def build_unit(unit):
+    del DEGRADED[:]
     parts = []      # (text, origin)
     funcs = []
     rewrites_info = []
@@ -182,6 +192,8 @@ def build_unit(unit):
     parts.append((header, ('gen', None)))
     for p in unit.get('prelude', []):
         parts.append(('// ---- prelude: %s ----\n' % p + read(os.path.join(CONTRACTS, p)) + '\n', ('prelude', p)))
+    for k, t in enumerate(unit.get('prelude_inline', [])):
+        parts.append(('// ---- prelude (inline %d) ----\n' % k + t + '\n', ('prelude', 'inline%d' % k)))
     cache = {}
     for sc in unit['items']:
         path = os.path.join(REPO, sc['file'])
@@ -270,7 +282,87 @@ def classify(msg):
     return 'infra'
 
 
+_MISSING = [
+    (re.compile(r"cannot find function `(\w+)` in this scope"), None),
+    (re.compile(r"no (?:method|function or associated item|associated function or constant|associated item) named `(\w+)` found for (?:struct|enum|type) `(\w+)"), 'ty'),
+]
+
+
+def find_missing_helpers(unit, diags):
+    """helper functions the extracted items call but the unit does not list (e.g. introduced by a refactoring):
+    locate them in the same source files so that the verified text stays the code that runs"""
+    found = []
+    files = list(dict.fromkeys(it['file'] for it in unit['items']))
+    have = {it['item'] for it in unit['items']}
+    for d in diags:
+        if d.get('level') != 'error':
+            continue
+        msg = d.get('message', '')
+        for rx, kind in _MISSING:
+            m = rx.search(msg)
+            if not m:
+                continue
+            name = m.group(1)
+            ty = m.group(2) if kind else None
+            for f in files:
+                src = read(os.path.join(REPO, f))
+                msk = rustscan.mask(src)
+                cands = []
+                if ty is None:
+                    cands.append(('fn ' + name, None))
+                # any impl block in that file that defines the fn
+                for im in re.finditer(r'\bimpl\b[^{;]*\{', msk):
+                    header = ' '.join(msk[im.start():im.end() - 1].split())
+                    header_n = re.sub(r'^impl<[^>]*>', 'impl', header)
+                    header_n = re.sub(r'\bwhere\b.*$', '', header_n).strip()
+                    tyname = header_n.split(' for ')[-1].replace('impl', '').strip()
+                    base_ty = re.sub(r'<.*', '', tyname)
+                    if ty is not None and base_ty != ty:
+                        continue
+                    cands.append((header_n + ' :: fn ' + name, 'impl ' + tyname if ' for ' in header_n else header_n))
+                for path, wrap in cands:
+                    if path in have:
+                        continue
+                    try:
+                        it = rustscan.find_item(src, path, msk)
+                    except rustscan.ScanError:
+                        continue
+                    item = {'file': f, 'item': path, 'fn': name, 'attrs': 'drop', 'auto_included': True}
+                    if wrap:
+                        item['wrap'] = wrap
+                    found.append(item)
+                    have.add(path)
+                    break
+    return found
+
+
 def run_unit(unit, obs, tier, seed, keep=False):
+    unit = dict(unit)
+    unit['items'] = list(unit['items'])
+    auto = []
+    for _round in range(4):
+        try:
+            res = _run_unit_once(unit, obs, tier, seed, keep)
+            res['auto_included'] = [a['item'] for a in auto]
+            if auto:
+                res['assumptions'] = res['assumptions'] + [
+                    'auto-included helper without contract (callers see no postcondition of it): %s' % a['item'] for a in auto]
+            return res
+        except MissingItems as e:
+            new = find_missing_helpers(unit, e.diags)
+            if not new:
+                raise Infra(e.msg)
+            auto += new
+            unit['items'] += new
+    raise Infra('could not close the set of extracted items after 4 rounds')
+
+
+class MissingItems(Exception):
+    def __init__(self, msg, diags):
+        self.msg, self.diags = msg, diags
+
+
+def _run_unit_once(unit, obs, tier, seed, keep=False):
     scratch = new_scratch('verus-' + unit['unit'])
     try:
         text, linemap, funcs, rw = build_unit(unit)
@@ -315,6 +407,7 @@ def run_unit(unit, obs, tier, seed, keep=False):
                     ass.append('verus %s.rs:%d: %s' % (unit['unit'], n, code.strip()[:150]))
                     break
         first['assumptions'] = ass
+        first['degraded'] = list(dict.fromkeys(DEGRADED))
         first['seeds'] = len(seeds)
         return first
     finally:
@@ -345,7 +438,10 @@ def _interpret(unit, obs, linemap, rc, js, diags, stderr, text):
             canary_hit.add(origin[1])
             continue
         if cls == 'infra':
-            raise Infra('verus rejected the generated file (not a proof failure): %s @ line %d: %s' % (msg[:600], ln, lines[ln - 1].strip()[:200] if ln - 1 < len(lines) else ''))
+            text_ = 'verus rejected the generated file (not a proof failure): %s @ line %d: %s' % (msg[:600], ln, lines[ln - 1].strip()[:200] if ln - 1 < len(lines) else '')
+            if any(rx.search(msg) for rx, _ in _MISSING):
+                raise MissingItems(text_, diags)
+            raise Infra(text_)
         fn = origin[1] if origin[0] == 'item' else None
         # a failing labelled clause may be reported with the primary span on it, or on a secondary span
         labels = []
